@@ -190,6 +190,15 @@ def max_shapes(identity, pdict):
                 if _fits(identity, {ok: 1, ik: v}, pdict):
                     out.append({ok: 1, ik: v})
                     break
+    # every counter large at the same time (halved until the payload fits): messages that are long
+    # because SEVERAL groups are populated (e.g. a long name and several long links)
+    allkeys = list(dict.fromkeys(tops + inners))
+    if len(allkeys) >= 2:
+        for num, den in ((1, 1), (1, 2), (1, 4), (1, 8), (1, 16)):
+            shape = {k: max(1, ((1 << fields[k][1]) - 1) * num // den) for k in allkeys}
+            if _fits(identity, shape, pdict):
+                out.append(shape)
+                break
     # de-duplicate
     seen, uniq = set(), []
     for s in out:
